@@ -66,6 +66,7 @@ func checkC03(c *Ctx) {
 	r.Rule("R03.5", "add/remove agreement: every wrapper type in which the add/set family packs a plain io.Writer is unwrapped by the remove family (the wrapped writer is compared with the argument), so that what was added can be removed")
 	r.Rule("R03.6", "severity notification is live: the LevelSettable assertion before the Write is applied to a value whose possible dynamic types implement it, the notification precedes the Write, and the list type forwards SetLevel(lvl) to every member that wants it (itself or as the wrapped writer)")
 	r.Rule("R13.1", "(shared with C13) every writer of the selected set receives the record: the fan-out loop has its natural exit only and ranges over every member")
+	r.Rule("R10.3", "(shared with C10) writer operations given as New(...) options are all applied: newentry offers every element of its argument list to the option test, in order, dropping a leading element only when it was recognised as the name")
 	r.Assume("os.Stdout/os.Stderr are the process's standard streams at run time")
 	for _, tags := range c.Configs([]string{""}, []string{"", "verbose"}) {
 		p := c.Prog(tags)
@@ -83,6 +84,7 @@ func checkC03(c *Ctx) {
 		c03AddRemove(c, p, m)
 		c03Notify(c, p, m)
 		c13Fanout(c, p, m)
+		optionsInOrder(c, p, "R10.3")
 	}
 	c.Floor["R03.1"] = 15
 	c.Floor["R03.3"] = 13
